@@ -1075,6 +1075,9 @@ def attribute(clauses, kind):
     return props
 
 
+MC_LEAF_CAP = 60000
+
+
 def run_pipeline(out, jobs_by_name, mc_specs, prop):
     """jobs_by_name: {name: [jobs]} random/doc jobs; mc_specs: [(catname, depth)].
     Fills the Outcome `out` for property `prop`."""
@@ -1086,6 +1089,11 @@ def run_pipeline(out, jobs_by_name, mc_specs, prop):
         st_trans += st[0]
         st_states += st[1]
         nh += n
+        if len(leaves) > MC_LEAF_CAP:
+            # TLC has visited every history (the properties of the specification are checked on all of
+            # them); a seeded sample of the maximal ones is replayed into gfapy
+            out.add_cov(mc_histories_enumerated=len(leaves), mc_histories_replayed_sample=MC_LEAF_CAP)
+            leaves = sorted(random.Random(out.seed + depth).sample(leaves, MC_LEAF_CAP))
         all_jobs += history_jobs(leaves, ops, catname, "mc")
     for name, jobs in jobs_by_name.items():
         all_jobs += jobs
